@@ -11,6 +11,9 @@ pub const TOKENS: &[&str] = &[
     "<block", "<block>", "</block>", "<block name=\"a\">", "<block keep-sorted>", "<block keep-unique=\"(\">", "<block line-count=\"<3\">", "<block line-pattern=\"[\">", "<block affects=\":a\">",
     "</ block >", "< / block>", "name=", "=", ">", "<", "/", "</", "block", "<block ", " keep-sorted=\"desc\"", "<block\n", "<block a='", "<block a=\"",
     "\n", "\n\n", "\r\n", "\r", "\t", " ", "  ", "\u{a0}", "\u{200b}", "😀", "e\u{301}", "é", "日本語", "\u{feff}", "\\", "\\\n", ";", "{", "}", "[", "]", "$", "@", "%",
+    // multi-byte / exotic whitespace, alone and at structural positions
+    "\u{2003}", "\u{3000}", "\u{2028}", "\u{85}", "\u{b}", "\u{c}", "/*\u{a0}", "/**\n\u{a0}*", "\n\u{a0}", "\n\u{3000}* ", "\n\u{2003}", "//\u{a0}", "#\u{3000}", "<!--\u{a0}", "--\u{a0}",
+    "\u{a0}<block>", "<block\u{a0}name=\"a\">", "<block\u{3000}>", "</block\u{a0}>", "</\u{2003}block>", "<block a=\u{a0}\"1\">", "<block a\u{a0}=\"1\">", "[//]:\u{a0}#\u{a0}(", "\u{a0}*/", "\u{a0}-->",
     "<<EOF", "EOF", "<?php", "?>", "<?", "=begin", "=end", "<![CDATA[", "]]>", "<root>", "</root>", "<p>", "</p>", "<script>", "</script>", "<style>", "> ", "- ", "1. ", "    ", "---", "***", "|",
     "a", "x = 1", "fn f() {}", "int a;", "def f(): pass", "package main", "SELECT 1;", "key: value", "k = \"v\"", "all:", "\techo hi", "let s = \"", "/* c */", "// c", "# c", "-- c", "<!-- c -->",
 ];
@@ -387,6 +390,65 @@ fn ops_strategy(max: usize) -> BoxedStrategy<Vec<MutOp>> {
     proptest::collection::vec(op, 1..max).boxed()
 }
 
+pub const SWEEP_CHARS: &[char] = &['\u{a0}', '\u{3000}', '\u{2028}', '\u{85}', 'é', '😀', '\u{301}', '\u{feff}', '\u{b}', '\r', '\0'];
+
+#[derive(Clone, Debug, Serialize, Deserialize)]
+pub struct SweepItem {
+    /// index into the golden seeds
+    pub seed: usize,
+    /// index into SWEEP_CHARS
+    pub ch: usize,
+    /// false: insert the character at every position; true: replace every ASCII blank by it, one at a time
+    pub replace: bool,
+}
+
+/// Every position of a small valid file x one unusual character (insert, or replace a blank).
+pub fn check_sweep(it: &SweepItem, probe: &Probe) -> Verdict {
+    let sd = seeds();
+    let seed = &sd[it.seed % sd.len()];
+    let ch = SWEEP_CHARS[it.ch % SWEEP_CHARS.len()];
+    let t = &seed.text;
+    for p in 0..=t.len() {
+        if !t.is_char_boundary(p) {
+            continue;
+        }
+        let text = if it.replace {
+            match t[p..].chars().next() {
+                Some(c @ (' ' | '\t')) => format!("{}{ch}{}", &t[..p], &t[p + c.len_utf8()..]),
+                _ => continue,
+            }
+        } else {
+            format!("{}{ch}{}", &t[..p], &t[p..])
+        };
+        if degenerate(&text) {
+            probe.nontrivial_sub(&(it.seed, it.ch, p));
+        } else if p > 0 && matches!(t.as_bytes()[p - 1], b'*' | b'/' | b'#' | b'-' | b'\n' | b'<' | b'=' | b'k') {
+            // directly after a comment delimiter, a line start inside a comment or a tag boundary
+            probe.nontrivial_sub(&(it.seed, it.ch, p));
+        }
+        match in_process_all_suffixes(&text, &[seed.suffix], probe) {
+            Verdict::Pass => {}
+            v => return v,
+        }
+    }
+    probe.sample(|| json!({"seed_file": seed.origin, "char": format!("U+{:04X}", ch as u32), "mode": if it.replace { "replace each blank" } else { "insert at every position" }, "positions": t.len()}));
+    Verdict::Pass
+}
+
+pub fn sweep_items() -> Vec<SweepItem> {
+    let sd = seeds();
+    let goldens: Vec<usize> = (0..sd.len()).filter(|i| sd[*i].origin.starts_with("golden")).collect();
+    let mut v = vec![];
+    for &seed in &goldens {
+        for ch in 0..SWEEP_CHARS.len() {
+            for replace in [false, true] {
+                v.push(SweepItem { seed, ch, replace });
+            }
+        }
+    }
+    v
+}
+
 #[derive(Clone, Debug, Serialize, Deserialize)]
 pub struct RawInput {
     pub suffix: String,
@@ -408,7 +470,7 @@ pub fn check_raw(r: &RawInput, probe: &Probe) -> Verdict {
 pub fn run(run: &mut Run) {
     run.sentinel("K6", "raw", check_raw);
     run.enumerate("raw", Vec::<RawInput>::new(), None, check_raw);
-    run.rule = "random, three parts. soup: 1..40 tokens drawn from 130 fragments (comment delimiters of every language, tag fragments, half-written tags, quotes, brackets, newlines/CR/CRLF, NBSP, zero-width, emoji, combining marks, BOM, here-doc/PHP/Markdown/XML openers, small valid statements), glued or space-separated, run in-process (parse + sync validators) under all 39 suffixes. mutants: delete/duplicate/insert-token/truncate/move-span mutations of valid files (golden file of every suffix x comment form, and the repository's own sources, tests, README, capped at 8 KiB) under their own suffix in-process. cli: a mutant committed and a further mutation in the work tree, real `git diff -U0..3` piped to `blockwatch` and `blockwatch list`, plus scan and list, under the file's suffix and a second random suffix. Every in-process panic is re-run on the CLI before it is reported. Evaluations count (input, suffix, mode) runs. Non-trivial input = unbalanced comment delimiters, a half-written tag, a Markdown definition opener or a degenerate `<!-->`.".into();
+    run.rule = "one enumerated and three random parts. unicode-sweep: the golden file of every (suffix, comment form) with one unusual character (NBSP, ideographic space, U+2028, NEL, é, emoji, combining mark, BOM, VT, CR, NUL) inserted at every byte position, or substituted for each blank, parsed + validated in-process. soup: 1..40 tokens drawn from 155 fragments (comment delimiters of every language, tag fragments, half-written tags, quotes, brackets, newlines/CR/CRLF, NBSP, zero-width, emoji, combining marks, BOM, here-doc/PHP/Markdown/XML openers, small valid statements), glued or space-separated, run in-process (parse + sync validators) under all 39 suffixes. mutants: delete/duplicate/insert-token/truncate/move-span mutations of valid files (golden file of every suffix x comment form, and the repository's own sources, tests, README, capped at 8 KiB) under their own suffix in-process. cli: a mutant committed and a further mutation in the work tree, real `git diff -U0..3` piped to `blockwatch` and `blockwatch list`, plus scan and list, under the file's suffix and a second random suffix. Every in-process panic is re-run on the CLI before it is reported. Evaluations count (input, suffix, mode) runs. Non-trivial input = unbalanced comment delimiters, a half-written tag, a Markdown definition opener or a degenerate `<!-->`.".into();
     run.assumptions = vec![
         "inputs are at most 16 KiB (edited lines are short: the character diff of one replaced line is quadratic, slowness on very long lines is not flagged)".into(),
         "only git-made diffs are piped in".into(),
@@ -416,7 +478,8 @@ pub fn run(run: &mut Run) {
     let soup = || (proptest::collection::vec(any::<u16>(), 1..40), any::<bool>()).prop_map(|(tokens, spaced)| Soup { tokens, spaced }).boxed();
     let mutant = || (any::<u16>(), ops_strategy(6)).prop_map(|(seed, ops)| Mutant { seed, ops }).boxed();
     let cli = || (any::<u16>(), ops_strategy(4), ops_strategy(4), any::<u16>()).prop_map(|(seed, ops, second, other_suffix)| CliCase { mutant: Mutant { seed, ops }, second, other_suffix }).boxed();
-    run.random("soup", run.tier.pick(1500, 40000), soup, check_soup);
+    run.enumerate("unicode-sweep", sweep_items(), Some("every byte position of the golden file of every (suffix, comment form) x 11 unusual characters x {insert, replace a blank}"), check_sweep);
+    run.random("soup", run.tier.pick(2500, 40000), soup, check_soup);
     run.random("mutants", run.tier.pick(20000, 600000), mutant, check_mutant);
     run.shrink_iters = 100;
     run.random("cli", run.tier.pick(400, 10000), cli, check_cli);
